@@ -138,9 +138,10 @@ func (c *ScalarCase) carrierOK() bool {
 		}
 		if c.Carrier == "urlenc" {
 			// in the wholly percent-encoded form '#' and '?' inside a value are unambiguous
-			// (%23, %3F); '&', '=', '%' and '+' stay excluded: the walker decodes the whole
+			// (%23, %3F); '&', '=' and '+' stay excluded: the walker decodes the whole
 			// URL before it splits, so such values cannot be carried (DESIGN 5, C18 X)
-			return urlSafe(strings.NewReplacer("#", "", "?", "").Replace(s))
+			// (a '%' inside the value travels as %25 and is a '%' again after the one decoding there is)
+			return urlSafe(strings.NewReplacer("#", "", "?", "", "%", "").Replace(s))
 		}
 		return urlSafe(s)
 	case "map", "mapiface", "listmap":
